@@ -251,10 +251,18 @@ def comparison_facts(prog, sl):
 
 
 def rule3(ctx, prog, flows):
-    ctx.rule("R-C02-3", "keys of `edges` are canonicalised by NAME order and keys of `edges_map` by POSITION order, both depending on specs.directed")
+    key_discipline(ctx, prog, flows, "R-C02-3", None, 5, 7)
+
+
+def key_discipline(ctx, prog, flows, RID, only, floor_e, floor_m, why=""):
+    """the key-canonicalisation rule, for all bodies or for the bodies in `only` (other properties
+    re-use it for the part of the crate their own clause relies on)"""
+    ctx.rule(RID, "keys of `edges` are canonicalised by NAME order and keys of `edges_map` by POSITION order, both depending on specs.directed" + why)
     guards = Guards(prog, flows)
     n_e = n_m = 0
     for p in sorted(prog.bodies):
+        if only is not None and p not in only:
+            continue
         b = prog.bodies[p]
         fl = flows.of(b)
         for t in b.calls():
@@ -299,23 +307,24 @@ def rule3(ctx, prog, flows):
             if store == "edges":
                 n_e += 1
                 if ex:
-                    ctx.ok("R-C02-3", keyid, "access to `edges` runs only on directed graphs (%s): stored orientation is the given one" % ex[:120], loc_str(t.span))
+                    ctx.ok(RID, keyid, "access to `edges` runs only on directed graphs (%s): stored orientation is the given one" % ex[:120], loc_str(t.span))
                 elif from_pred:
-                    ctx.ok("R-C02-3", keyid, "key built from members of `predecessors`, a store written only on directed graphs", loc_str(t.span))
+                    ctx.ok(RID, keyid, "key built from members of `predecessors`, a store written only on directed graphs", loc_str(t.span))
                 else:
                     ok = names and directed and not pos
-                    ctx.require(ok, "R-C02-3", keyid, "key of `edges` in %s is ordered by a NAME comparison under specs.directed" % b.short.split("::", 2)[-1],
+                    ctx.require(ok, RID, keyid, "key of `edges` in %s is ordered by a NAME comparison under specs.directed" % b.short.split("::", 2)[-1],
                                 "key of `edges` in %s: name comparison=%s, position comparison=%s, depends on specs.directed=%s -- on an undirected graph the pair is looked up under an orientation it is not stored under whenever name order and insertion order differ" % (b.short, names, pos, directed), loc_str(t.span))
             else:
                 n_m += 1
                 if ex:
-                    ctx.ok("R-C02-3", keyid, "access to `edges_map` runs only on directed graphs (%s)" % ex[:120], loc_str(t.span))
+                    ctx.ok(RID, keyid, "access to `edges_map` runs only on directed graphs (%s)" % ex[:120], loc_str(t.span))
                 else:
                     ok = pos and directed and not names
-                    ctx.require(ok, "R-C02-3", keyid, "key of `edges_map` in %s is ordered by a POSITION comparison under specs.directed" % b.short.split("::", 2)[-1],
+                    ctx.require(ok, RID, keyid, "key of `edges_map` in %s is ordered by a POSITION comparison under specs.directed" % b.short.split("::", 2)[-1],
                                 "key of `edges_map` in %s: position comparison=%s, name comparison=%s, depends on specs.directed=%s" % (b.short, pos, names, directed), loc_str(t.span))
-    ctx.floor("R-C02-3", "edges_keyed_accesses", n_e, 6)
-    ctx.floor("R-C02-3", "edges_map_keyed_accesses", n_m, 6)
+    ctx.floor(RID, "edges_keyed_accesses", n_e, floor_e)
+    ctx.floor(RID, "edges_map_keyed_accesses", n_m, floor_m)
+    return n_e, n_m
 
 
 # ---------------------------------------------------------------------------------------- R-C02-4
